@@ -734,8 +734,9 @@ def check_cycle(ctx: Ctx, view: View, sc: dict, cyc: dict) -> None:
     want = None
     if not marked and OWN not in fins and req_sure:
         want = True
-    elif OWN in fins and not req_by:
-        want = False
+    elif OWN in fins and not req_by and not (merge is not None and isinstance(merge.get("result"), dict)
+                                             and _requiring(view, cyc, _labels(merge["result"]))[1]):
+        want = False   # (unless the cycle's own merge-patch response already shows a requirement again)
     if want is not None and not rejected:
         have = (OWN in after) if after is not None else (OWN in fresh)
         if have != want:
